@@ -440,7 +440,7 @@ func packObjectsQty(r *Scanner) (stateFn, error) {
 // [ErrMalformedPackfile] is returned.
 //
 // When SHA256 is enabled, the scanner will also calculate the SHA256 for each object.
-func objectEntry(r *Scanner) (stateFn, error) {
+func objectEntry(r *Scanner) (_ stateFn, retErr error) {
 	if r.objIndex+1 >= int(r.objects) {
 		return packFooter, nil
 	}
@@ -520,7 +520,12 @@ func objectEntry(r *Scanner) (stateFn, error) {
 				return nil, err
 			}
 
-			defer func() { _ = w.Close() }()
+			// Close is where the storage keeps the object: its error counts.
+			defer func() {
+				if cerr := w.Close(); retErr == nil {
+					retErr = cerr
+				}
+			}()
 			mw = io.MultiWriter(r.hasher, w)
 		}
 	}
